@@ -9,7 +9,9 @@ RUN_MODULE = "Run.Run_C12"
 GEN_FILES = []
 RULE = ("graphs of <= 16 nodes from shape classes (chain, in-tree, wide fan-out, diamond, diamond inside diamond, branch that is itself the "
         "meeting point, ladder, several components, single node, random DAG, flip-flop blackbox) plus cyclic variants (back edge, self loop); "
-        "types assigned by in-degree (sources: inputs/constants/bb_output); per graph a batch of queries: fanin/fanout/transitive_fanin/"
+        "types assigned by in-degree (sources: inputs/constants/bb_output); node names one-letter, multi-character, or mixed so that long "
+        "names are spelled with the one-letter names of other nodes; every function is called with a single node given as a str (incl. a "
+        "startpoint for startpoints, an endpoint for endpoints) and with node lists; per graph a batch of queries: fanin/fanout/transitive_fanin/"
         "transitive_fanout/startpoints/endpoints on single nodes, node lists and the whole circuit, both depth functions on single nodes and "
         "lists, topo_sort, levelize, is_cyclic, reconvergent_fanout_nodes, kcuts(n, k) for k in 0..4 on acyclic graphs; non-trivial = at "
         "least 3 nodes and 2 edges; distinct = canonical input hash")
@@ -95,10 +97,32 @@ def union(parts):
     return n, e
 
 
+def make_names(rng, n):
+    """node names: one-letter, multi-character, or a mix in which the longer names are spelled with the one-letter names of other
+    nodes ("ab", "din" next to "a", "b", "d", "i", "n") -- a str argument must never be treated as an iterable of characters"""
+    scheme = rng.choice(["letters", "multi", "mixed", "mixed"])
+    if scheme == "letters" and n <= 26:
+        names = list(NAMES[:n])
+    elif scheme == "multi" or n > 26:
+        style = rng.choice([lambda i: f"n{i}", lambda i: f"w_{i}", lambda i: f"sig{i}", lambda i: f"net_{NAMES[i % 26]}{i}"])
+        names = [style(i) for i in range(n)]
+    else:
+        k = max(1, min(n - 1, rng.randint(2, 4))) if n > 1 else 0
+        letters = rng.sample(NAMES[:8], k)
+        names = list(letters)
+        while len(names) < n:
+            w = "".join(rng.choice(letters) for _ in range(rng.randint(2, 3))) if letters else "xy"
+            if rng.random() < 0.25:
+                w += rng.choice(["_o", "1", "q"])
+            if w not in names:
+                names.append(w)
+    rng.shuffle(names)
+    return names, scheme
+
+
 def to_dump(rng, n, edges, flop=False):
     """types by in-degree; names shuffled so that name order is unrelated to topological order"""
-    names = list(NAMES[:n]) if n <= 26 else [f"n{i}" for i in range(n)]
-    rng.shuffle(names)
+    names, _ = make_names(rng, n)
     fi = {i: sorted({names[u] for u, v in edges if v == i}) for i in range(n)}
     has_fo = {u for u, v in edges}
     nodes = []
@@ -164,15 +188,28 @@ def gen_case(rng):
     qs = []
     # cyclic graphs are in the property's domain for is_cyclic and the rejection by the depth functions / levelize / topo_sort only
     # (networkx ancestors(G, n) never contains n itself, so on a cycle it is not the set of proper ancestors)
+    by_len = sorted(names, key=len, reverse=True)
+
+    def a_str(pool=None):
+        """a single node passed by NAME (str, not wrapped in a list); prefers multi-character names"""
+        pool = [x for x in (pool or names)] or names
+        longer = [x for x in pool if len(x) > 1]
+        return rng.choice(longer) if longer and rng.random() < 0.8 else rng.choice(pool)
+    sps = [x[0] for x in d["nodes"] if x[1] in ("input", "bb_output")]
+    eps = [x[0] for x in d["nodes"] if x[2] or x[1] == "bb_input"]
     for fn in ("fanin", "fanout") + (() if cyclic else ("transitive_fanin", "transitive_fanout")):
-        for _ in range(2):
-            qs.append([fn, pick_args(rng, names)])
-    for fn in () if cyclic else ("startpoints", "endpoints"):
+        qs.append([fn, a_str()])
         qs.append([fn, pick_args(rng, names)])
-        qs.append([fn, rng.choice([None, [], pick_args(rng, names)])])
+    if not cyclic:
+        qs.append(["startpoints", a_str(sps)])            # the node itself is a startpoint
+        qs.append(["startpoints", a_str()])
+        qs.append(["startpoints", rng.choice([None, [], pick_args(rng, names)])])
+        qs.append(["endpoints", a_str(eps)])              # the node itself is an endpoint
+        qs.append(["endpoints", a_str()])
+        qs.append(["endpoints", rng.choice([None, [], pick_args(rng, names)])])
     for fn in ("fanin_depth", "fanout_depth"):
-        for _ in range(2):
-            qs.append([fn, pick_args(rng, names)])
+        qs.append([fn, a_str()])
+        qs.append([fn, pick_args(rng, names)])
     qs += [["topo_sort"], ["levelize"], ["is_cyclic"]] + ([] if cyclic else [["reconvergent"]])
     if not cyclic and len(names) <= 13:
         for _ in range(2):
@@ -186,6 +223,11 @@ def handmade():
     out.append({"circuit": g, "shape": "hand:branch_is_meeting",
                 "queries": [["reconvergent"], ["transitive_fanout", "g"], ["fanout_depth", "g"], ["fanin_depth", "b"], ["kcuts", "b", 1],
                             ["kcuts", "b", 0], ["levelize"], ["topo_sort"], ["is_cyclic"]]})
+    nm = {"name": "top", "bbs": [], "nodes": [["d", "input", False, []], ["n", "not", True, ["d"]], ["din", "input", False, []],
+                                              ["ny", "buf", False, ["din"]], ["q_out", "and", True, ["ny", "n"]]]}
+    out.append({"circuit": nm, "shape": "hand:names_are_not_character_sets",
+                "queries": [[f, x] for f in ("endpoints", "startpoints", "fanin", "fanout", "transitive_fanin", "transitive_fanout",
+                                             "fanin_depth", "fanout_depth") for x in ("q_out", "din", "ny")]})
     return out
 
 
